@@ -14,6 +14,17 @@ CAPABLE_LINEAR = {"DirectSolver", "LinearBlockGS", "ScipyKrylov", "PETScKrylov",
 ITERATIVE_NONLINEAR = {"NonlinearBlockGS", "NewtonSolver", "NonlinearBlockJac", "BroydenSolver"}
 
 
+def mode_of(sigma):
+    """True for the fwd arm, False for rev (OpenMDAO passes only these two)."""
+    f = sigma.get("mode == 'fwd'")
+    if f is not None:
+        return f
+    r = sigma.get("mode == 'rev'")
+    if r is not None:
+        return not r
+    return None
+
+
 def _trans_of(v):
     """transposition flag of a solve value: 0 / 1 / None (unknown)."""
     ex = v.extra
@@ -49,7 +60,7 @@ def s1_s2(chk, repo, fem_symmetric):
         for run in m.runs["solve_linear"]:
             if run.final is None:
                 continue
-            fwd = run.sigma.get("mode == 'fwd'")
+            fwd = mode_of(run.sigma)
             if fwd is None:
                 continue
             arm = "fwd" if fwd else "rev"
@@ -172,6 +183,10 @@ def s3(chk, repo):
         for run in m.runs["compute_jacvec_product"]:
             fwd = run.sigma.get("mode == 'fwd'")
             rev = run.sigma.get("mode == 'rev'")
+            if fwd is None and rev is not None:
+                fwd = not rev
+            if rev is None and fwd is not None:
+                rev = not fwd
             if fwd:
                 tr = _transfers(run, "d_out", "d_in")
                 got = {(a, ai, b, bi) for a, ai, b, bi, op, e, g in tr}
